@@ -899,3 +899,233 @@ SCU = Unit(['C16', 'C03'], 'taurex.util.output:store_contributions', _sc_params,
            doc='the stored contribution spectra: one spectrum dictionary per contribution and per component (of the binner, by its own units), '
                'each built from the own flux of that contribution and optical depth, stored under its name, the repeated grid entries removed '
                '(0..2 contributions with 0..2 components; binners with and without binned grids)')
+
+
+# ------------------------------------------------------------------ the loader: load_generic_profile_from_hdf5 (what the constructor is called with)
+HD = 'taurex.util.hdf5:'
+# what a stored keyword can look like when read back with h5py: a number, an array of numbers, a byte string (text written with
+# write_string), an (N,1) array of byte strings (write_string_array), or text that comes back as str
+_LG_KINDS = ('number', 'array', 'bytes', 'str', 'strings')
+
+
+def _lg_value(c, st, kw, kind):
+    if kind == 'number':
+        return c.real('val_' + kw)
+    if kind == 'array':
+        a = c.array('arr_' + kw, (c.int('len_' + kw),))
+        return a if isinstance(a, Ref) or st is None else st.alloc(c, a)
+    if kind == 'bytes':
+        return AbsObj('bytes', 'text_' + kw, {})
+    if kind == 'str':
+        return 'text_' + kw
+    from pyvc.engine import ModV
+    return AbsObj('ndarray', 'strings_' + kw, {'dtype': AbsObj('dtype', 'S64', {'type': ModV('numpy.bytes_')})})
+
+
+def _lg_fx(c):
+    return c.fixed if c.mode != 'conc' else c.values
+
+
+def _lg_params(c):
+    fx = _lg_fx(c)
+    premade = {k: 'made_' + k for k in fx['premade']} if fx['premade'] is not None else None
+    repl = {k: 'repl_' + k for k in fx['repl']} if fx['repl'] is not None else None
+    stored = {kw: _lg_value(c, None, kw, kind) for kw, kind in fx['stored']} if c.mode != 'conc' else None
+    d = dict(loc=AbsObj('H5Group', 'grp', {}) if c.mode != 'conc' else dict(__obj__='H5Group'), module='taurex.some.module', identifier='thing_type',
+             profile_type=fx['ptype'], premade_dict=premade, replacement_dict=repl)
+    if c.mode != 'conc':
+        d['_stored'] = stored
+    return d
+
+
+def _h_lg_group_get(ex, st, o, args, kwargs, node):
+    fx = ex.c.fixed
+    key = args[0]
+    names = [k for k, _ in fx['stored']] + ['thing_type'] + list(fx['others'])
+    if key not in names:
+        raise _Raise(st, ExcV('KeyError', getattr(node, 'lineno', 0)))
+    return AbsObj('H5Dataset', key, {})
+
+
+def _h_lg_read(ex, st, o, args, kwargs, node):
+    fx = ex.c.fixed
+    _ev(st, 'read', o.ident)
+    if o.ident == 'thing_type':
+        return AbsObj('bytes', 'TheKlass', {})
+    if o.ident in fx['others']:
+        return ex.c.real('other_' + o.ident)
+    return st.get(st.env['_stored']).items[o.ident]
+
+
+def _h_lg_keys(ex, st, o, args, kwargs, node):
+    fx = ex.c.fixed
+    return st.alloc(ex.c, PyList([k for k, _ in fx['stored']] + ['thing_type'] + list(fx['others'])))
+
+
+def _h_lg_class(ex, st, args, kwargs, node):
+    name = args[0]
+    _ev(st, 'class_for_name', name.ident if isinstance(name, AbsObj) else name)
+    return FuncV('class', 'TheLoadedKlass')
+
+
+def _h_lg_kwargs(ex, st, args, kwargs, node):
+    """get_klass_args by its contract (unit below): the defaulted parameters of the constructor, in order"""
+    return st.alloc(ex.c, PyList(list(ex.c.fixed['kw'])))
+
+
+def _h_lg_construct(ex, st, args, kwargs, node):
+    _ev(st, 'construct', tuple(args), dict(kwargs))
+    return st.alloc(ex.c, Obj('TheLoadedKlass', {}))
+
+
+def _h_lg_decode_strings(ex, st, args, kwargs, node):
+    v = args[0]
+    return st.alloc(ex.c, PyList(['%s[%d]' % (v.ident, i) for i in range(2)]))
+
+
+def _lg_expected(fx):
+    """keyword -> what the constructor must receive"""
+    want = {k: ('made', k) for k in (fx['premade'] or ())}
+    for kw in fx['kw']:
+        kinds = dict(fx['stored'])
+        if kw in kinds:
+            want[kw] = ('repl', kw) if kw in (fx['repl'] or ()) else ('stored', kw, kinds[kw])
+    return want
+
+
+def _lg_post(c, v0, v1, r):
+    fx = _lg_fx(c)
+    calls = [e for e in (c.trace or []) if e[0] == 'construct']
+    lookups = [e for e in (c.trace or []) if e[0] == 'class_for_name']
+    d = {'one_construction_of_the_stored_type': len(calls) == 1 and [tuple(e) for e in lookups] == [('class_for_name', fx['ptype'] or 'TheKlass')]}
+    if not d['one_construction_of_the_stored_type']:
+        return d
+    _, pos, got = calls[0]
+    want = _lg_expected(fx)
+    d['keywords_are_the_stored_constructor_keywords_plus_the_premade_ones'] = len(pos) == 0 and sorted(got) == sorted(want)
+    if not d['keywords_are_the_stored_constructor_keywords_plus_the_premade_ones']:
+        return d
+    for k, w in want.items():
+        g = got[k]
+        if w[0] == 'made':
+            ok = g == 'made_' + k
+        elif w[0] == 'repl':
+            ok = g == 'repl_' + k
+        elif c.mode == 'conc':
+            ok = _lg_same_conc(g, c.values['__stored__'][k], w[2])
+        else:
+            kind = w[2]
+            if kind == 'number':
+                ok = is_sym(g) and g.eq(z3.Real('val_' + k))
+            elif kind == 'array':
+                ok = isinstance(g, Ref) and g.id == c.raw['state'].heap[c.raw['env']['_stored'].id].items[k].id
+            elif kind in ('bytes', 'str'):
+                ok = g == 'text_' + k
+            else:
+                heap = c.raw['state'].heap
+                ok = isinstance(g, Ref) and list(heap[g.id].items) == ['strings_%s[%d]' % (k, i) for i in range(2)]
+        d['value_' + k] = ok
+    if c.mode != 'conc':
+        d['returns_the_constructed_object'] = isinstance(c.raw['ret'], Ref) and getattr(c.raw['state'].heap[c.raw['ret'].id], 'cls', None) == 'TheLoadedKlass'
+    else:
+        d['returns_the_constructed_object'] = r == 'the-object'
+    return d
+
+
+def _lg_same_conc(got, stored, kind):
+    import numpy as np
+    if kind == 'number':
+        return isinstance(got, (float, np.floating)) and float(got) == float(stored)
+    if kind == 'array':
+        return isinstance(got, np.ndarray) and np.array_equal(got, np.asarray(stored))
+    if kind in ('bytes', 'str'):
+        return got == (stored.decode() if isinstance(stored, bytes) else stored)
+    return list(got) == [s[0].decode() for s in stored]
+
+
+def _lg_native(c, p):
+    import numpy as np
+    import taurex.util.hdf5 as H
+    from pyvc.unit import patched
+    fx = c.values
+    trace = []
+    rng = np.random.RandomState(len(str(fx)))
+    stored = {}
+    for kw, kind in fx['stored']:
+        if kind == 'number':
+            stored[kw] = np.float64(rng.uniform(-5, 5))
+        elif kind == 'array':
+            stored[kw] = rng.uniform(-5, 5, size=rng.randint(1, 4))
+        elif kind == 'bytes':
+            stored[kw] = b'text_' + kw.encode()
+        elif kind == 'str':
+            stored[kw] = 'text_' + kw
+        else:
+            stored[kw] = np.array([[b'one'], [b'two']], dtype='S64')
+    others = {k: np.float64(1.5) for k in fx['others']}
+
+    class _DS:
+        def __init__(self, v):
+            self.v = v
+
+        def __getitem__(self, idx):
+            return self.v
+
+    class _Grp:
+        def keys(self):
+            return list(stored) + ['thing_type'] + list(others)
+
+        def __getitem__(self, k):
+            if k == 'thing_type':
+                return _DS(b'TheKlass')
+            if k in stored:
+                return _DS(stored[k])
+            return _DS(others[k])
+
+    src = 'def __init__(self%s%s):\n        trace.append(("construct", (), dict(%s)))' % (
+        ''.join(', %s' % k for k in (fx['premade'] or ()) if k not in fx['kw']), ''.join(', %s=None' % k for k in fx['kw']),
+        ', '.join('%s=%s' % (k, k) for k in list(fx['premade'] or ()) + [k for k in fx['kw'] if k not in (fx['premade'] or ())]))
+    ns = {'trace': trace}
+    exec('class K:\n    ' + src, ns)
+    K = ns['K']
+
+    def cfn(name):
+        trace.append(('class_for_name', name.decode() if isinstance(name, bytes) else name))
+        return K
+    premade = {k: 'made_' + k for k in fx['premade']} if fx['premade'] is not None else None
+    repl = {k: 'repl_' + k for k in fx['repl']} if fx['repl'] is not None else None
+    with patched(H.class_for_name, cfn):
+        o = H.load_generic_profile_from_hdf5(_Grp(), 'taurex.some.module', 'thing_type', profile_type=fx['ptype'], premade_dict=premade,
+                                             replacement_dict=repl)
+    # the recording constructor reports every keyword it received; those left at None were not passed
+    tr = []
+    for e in trace:
+        if e[0] == 'construct':
+            tr.append(('construct', (), {k: v for k, v in e[2].items() if v is not None}))
+        else:
+            tr.append(e)
+    c.values['__stored__'] = stored
+    return ('the-object' if isinstance(o, K) else o), dict(p, __trace__=tr)
+
+
+_LG_CASES = []
+for _kw, _stored, _others in (
+        (('a',), (('a', 'number'),), ()),
+        (('a', 'b'), (('a', 'number'),), ('unrelated',)),                # b not stored: the constructor default stays
+        (('a', 'b'), (('a', 'array'), ('b', 'bytes')), ()),
+        (('a', 'b', 'c'), (('a', 'strings'), ('b', 'str'), ('c', 'number')), ('x',)),
+        ((), (), ('x',))):
+    for _repl in (None, ('a',), ('zz',)):
+        for _pt, _pm in ((None, None), ('Planet', None), (None, ('planet', 'star'))):
+            _LG_CASES.append(dict(kw=_kw, stored=_stored, others=_others, repl=_repl, ptype=_pt, premade=_pm))
+
+LGP = Unit('C16', HD + 'load_generic_profile_from_hdf5', _lg_params, post=_lg_post, cases=_LG_CASES, bounds=[{}],
+           abstract={'H5Group.__getitem__': _h_lg_group_get, 'H5Dataset.__getitem__': _h_lg_read, 'H5Group.keys': _h_lg_keys, 'call:class_for_name': _h_lg_class,
+                     'call:get_klass_args': _h_lg_kwargs, 'new:TheLoadedKlass': _h_lg_construct, 'call:decode_string_array': _h_lg_decode_strings,
+                     'bytes.decode': lambda ex, st, o, args, kwargs, node: o.ident},
+           native=_lg_native, gen=lambda rng: dict(rng.choice(_LG_CASES)), short='load_generic_profile_from_hdf5',
+           doc='the generic loader: the class is looked up once by the stored (or given) type name; its constructor is called once, by keyword, '
+               'with exactly the constructor keywords the group holds -- number and array as stored, byte string as text, byte-string array as '
+               'the list of its texts -- each overridden by the replacement dictionary where that names it, plus the premade arguments; '
+               'keywords the group does not hold keep the constructor default; entries that are no constructor keyword are ignored '
+               '(h5py group / dataset, class_for_name, get_klass_args, decode_string_array abstract)')
